@@ -72,6 +72,15 @@ Definition m_observe (st : Z) (s : mst) : list Z :=
    b2z (y_outer s); b2z (y_cb s); b2z (y_iso s)] ++ flat_map sort3 (y_tris s)
   ++ flat_map (fun t => let '(a, b, c) := t in sort3 (pos_in a (y_mverts s), pos_in b (y_mverts s), pos_in c (y_mverts s))) (y_tris s).
 
+(* the same without the private geometry: status, #mesh vertices, #triangles, flags, triangles as positions in the mesh's
+   own vertex list *)
+Definition m_observe_local (st : Z) (s : mst) : list Z :=
+  [st; Z.of_nat (length (y_mverts s)); Z.of_nat (length (y_tris s)); b2z (y_outer s); b2z (y_cb s); b2z (y_iso s)]
+  ++ flat_map (fun t => let '(a, b, c) := t in sort3 (pos_in a (y_mverts s), pos_in b (y_mverts s), pos_in c (y_mverts s))) (y_tris s).
+(* every triangle of the file refers to vertices of the file *)
+Definition wf_mdesc (d : mdesc) : Prop :=
+  Forall (fun t => let '(a, b, c) := t in (a < length (m_vs d) /\ b < length (m_vs d) /\ c < length (m_vs d))%nat) (m_ts d).
+
 Inductive mop :=
 | MLoad (i : nat)
 | MSurfSource.      (* SurfSourceMat(reference head, mesh) *)
